@@ -104,6 +104,7 @@ def run(ctx):
         ctx.anchor_missing(r_valid, str(e))
 
     exist_rule(ctx, Syn_(ctx))
+    recur_rule(ctx, prog, reach, Syn_(ctx))
 
     # ---------------- loops consume input
     r_loop = ctx.rule("C19.LOOP", "every loop in loader-reachable code advances an iterator / reader on each iteration")
@@ -196,3 +197,48 @@ def exist_rule(ctx, syn):
 def Syn_(ctx):
     from synq import Syn
     return Syn(ctx.facts.syn())
+
+
+# ---------------------------------------------------------------------- RECUR
+def recur_rule(ctx, prog, reach, syn):
+    """a function reachable from a loader that can call itself must be known to terminate: every such
+    function carries a reviewed reason; the file-include recursion of TextResourceBuilder::build is
+    additionally checked to re-enter only with a builder that carries text"""
+    from synq import find, unparse, strip, walk
+    r = ctx.rule("C19.RECUR", "every function reachable from a loader that may call itself has a reviewed termination argument; the include recursion re-enters only with text present")
+    table = load_safe("C19.RECUR")
+    n = 0
+    for bid in sorted(reach):
+        b = prog.bodies[bid]
+        if b.d.get("derived"):
+            continue
+        for bi, t in b.calls():
+            if bid in prog.call_targets(b, t):
+                n += 1
+                r.hit(bid, sample={"function": bid, "reason": table.get(bid, "-")[:90]})
+                if bid not in table:
+                    ctx.report(r, bid, "%s is reachable from a loader and may call itself (line %s); there is no reviewed termination argument for it: untrusted input may drive it into unbounded recursion (stack overflow aborts the process)" % (bid, t.get("line")), b.file, t.get("line"))
+                break
+    fl = [f for f in syn.fns if f.name == "build" and (f.self_ty or "") == "TextResourceBuilder" and f.body is not None]
+    if len(fl) != 1:
+        ctx.anchor_missing(r, "fn TextResourceBuilder::build")
+    else:
+        f = fl[0]
+        ctx.functions_analysed.add(f.qual)
+        okc = False
+        for blk in walk(f.body):
+            if not isinstance(blk.get("stmts"), list):
+                continue
+            srcs = [unparse(s_) for s_ in blk["stmts"]]
+            rec_i = [i for i, s_ in enumerate(blk["stmts"]) if s_.get("k") == "exprstmt" and strip(s_["e"]).get("k") == "mcall" and strip(s_["e"])["method"] == "build" and unparse(strip(strip(s_["e"])["recv"])) == "builder"]
+            if not rec_i:
+                continue
+            guard_i = [i for i, s_ in enumerate(srcs) if re.search(r"if builder\.text\.is_none\(\)\s*\{\s*return Err\(", s_) or re.search(r"builder\.text\.is_none\(\).*return Err", s_)]
+            r.hit("build:include-guard")
+            if guard_i and min(guard_i) < min(rec_i):
+                okc = True
+            else:
+                ctx.report(r, "build:include-guard", "TextResourceBuilder::build re-enters itself with the builder read from the included JSON file without first testing that it carries text: a file without a \"text\" member makes it load the same file again and again until the stack overflows", f.file, f.line)
+        if not okc and "build:include-guard" not in r.seen:
+            ctx.anchor_missing(r, "recursive builder.build(..) call in TextResourceBuilder::build")
+    ctx.floor(r, n, 1, "self-recursive loader-reachable functions")
